@@ -303,10 +303,6 @@ impl<T: UciTx, H: Heuristic, M: MoveOrder> Search<T, H, M> {
 
     #[inline(always)]
     fn should_check_flags(&mut self) -> bool {
-        #[cfg(inkayaku_verif)]
-        if let Some(answer) = crate::engine::verif::poll(self.state.metrics.last.negamax_nodes) {
-            return answer;
-        }
         self.state.metrics.last.negamax_nodes % 100_000 == 0 && self.state.metrics.last.negamax_nodes > 0
     }
 
@@ -326,6 +322,8 @@ impl<T: UciTx, H: Heuristic, M: MoveOrder> Search<T, H, M> {
         let color = self.state.bitboard.turn;
 
         let check_flags = self.should_check_flags();
+        #[cfg(inkayaku_verif)]
+        let check_flags = crate::engine::verif::poll(self.state.metrics.last.negamax_nodes, check_flags);
         if check_flags {
             self.check_messages();
             self.uci_tx.info(&Info {
